@@ -156,6 +156,7 @@ def run(tier):
         'fire when a group receives an identifier at or below a variable already mentioned; literal ranges and documented variable counts '
         'are checked on the result. This is the property where the solver contributes least: the index arithmetic is decided under C11.')
     run.bounds = ['histories: 2 operations (11 kinds x sizes 0..2 each) and 3 operations', 'monitor: the %s boxes of C01, C02, C03, C04, C05 (%s) and 12 larger instances' % (tier, 'every point' if tier != 'quick' else 'every third point')]
+    run.bounds += ['history steps include bulk insertion (list, tuple, generator, constructor) and reuse/overwriting of the lists passed in']
     run.outside = ['clauses inserted with check=False by user code (documented as trusting the caller)', 'longer histories']
     run.assumptions = ['monitor wrappers see every insertion because all builders go through add_clause / add_constraint / _add_variable_group']
     T = 300 if tier == 'quick' else 1200
